@@ -42,9 +42,13 @@ def parse_idx(line):
     return ('BAD', line)
 
 
-def one(b, ids, s, side, klass):
-    rules = [no_compression_rule(i, R if (k + len(s)) % 2 else L) for k, i in enumerate(ids)]
-    ruler = Ruler(rules)
+def one(b, ids, s, side, klass, shared=None):
+    """shared: (rules, ruler) of a long-lived Ruler to reuse"""
+    if shared is None:
+        rules = [no_compression_rule(i, R if (k + len(s)) % 2 else L) for k, i in enumerate(ids)]
+        ruler = Ruler(rules)
+    else:
+        rules, ruler = shared
     sb = mk(s, side)
 
     def f():
@@ -59,7 +63,7 @@ def one(b, ids, s, side, klass):
     elif out != ('EXC', 'RuleIDMatchError'):
         fails.append('no id is a prefix of %s but the lookup gave %s' % (s, out))
     line = ' '.join(['S', 'matchschc', tb(s)] + rules_tokens([n_rule(r) for r in rules]))
-    b.add(klass, line, out, parse_idx, fails, dict(layer='schc', op='matchschc', ids=ids, schc=s, side='L' if side == L else 'R'), key=(tuple(ids), s, side == L))
+    b.add(klass, line, out, parse_idx, fails, dict(layer='schc', op='matchschc', ids=ids, schc=s, side='L' if side == L else 'R'), key=(tuple(ids), s, side == L, id(shared)))
 
 
 def run(rep, tier, seed):
@@ -88,6 +92,31 @@ def run(rep, tier, seed):
         else:
             s = randbits(rnd, rnd.randint(0, 30))
         one(b, ids, s, rnd.choice([L, R]), 'random')
+    # one long-lived Ruler answering a sequence of lookups: hits, then shorter / truncated / unknown strings sharing leading bits
+    # (ids longer than one byte sharing their first byte; rules of fragmentation nature present in the set)
+    from microschc.rfc8724 import RuleNature
+    for _ in range(150 if tier == 'quick' else 2000):
+        n = rnd.randint(2, 7)
+        if rnd.random() < 0.5:
+            ids = prefix_free_ids(rnd, n)
+        else:
+            head = randbits(rnd, 8)
+            ids = [head + x for x in prefix_free_ids(rnd, n, maxlen=6)]       # 9..14-bit ids with a common first byte
+        rnd.shuffle(ids)
+        rules = [no_compression_rule(i, rnd.choice([L, R])) for i in ids]
+        if rnd.random() < 0.4:
+            rules[rnd.randrange(n)].nature = RuleNature.FRAGMENTATION      # dispatch looks at ids only
+        shared = (rules, Ruler(rules))
+        for step in range(8):
+            i = rnd.choice(ids)
+            r = rnd.random()
+            if r < 0.4:
+                s = i + randbits(rnd, rnd.choice([0, 1, 9, 30]))
+            elif r < 0.7:
+                s = i[:rnd.randint(0, len(i))] + rnd.choice(['', '0', '1'])
+            else:
+                s = i[:8] + randbits(rnd, rnd.randint(0, 8))
+            one(b, ids, s, rnd.choice([L, R]), 'long-lived-ruler', shared=shared)
     b.run()
 
 
